@@ -51,6 +51,8 @@ pub enum AddShredError {
     Equivocation,
     #[error("shred was invalid and leader did not equivocate")]
     InvalidShred,
+    #[error("shred type (data / coding) does not match its shred index")]
+    UnexpectedType,
 }
 
 /// Holds all data corresponding to any blocks for a single slot.
@@ -208,6 +210,14 @@ impl BlockData {
         debug_assert_eq!(header.slot, self.slot);
         let slice_index = header.slice_index;
         let is_last = header.is_last;
+
+        // The data / coding tag is not covered by the leader's signature, so anyone
+        // relaying a shred can flip it. Such a shred says nothing about the leader:
+        // drop it here instead of letting it fail reconstruction and flag the leader.
+        let expect_data = *shred.payload().shred_index < RegularShredder::DATA_OUTPUT_SHREDS;
+        if shred.is_data() != expect_data {
+            return Err(AddShredError::UnexpectedType);
+        }
 
         // first shred for a slice populates the commitment cache;
         // a later shred with a different valid commitment proves leader equivocation
